@@ -344,6 +344,9 @@ def directed_specs(op):
 		out.append(dict(base, table={"names": ["k", "v"], "cols": [kk, tv]}, over=[name("k")], aggs={"max": [name("v")], "min": [vec("v")]}))
 		out.append(dict(base, table={"names": ["k", "v"], "cols": [kk, tv]}, over=[name("k")], aggs={"max": [name("v"), vec("v")], "min": [name("v")], "sum": [name("v")]}))
 		out.append(dict(base, table={"names": ["k", "v"], "cols": [["a"] * 6, tv]}, over=[name("k")], aggs={"min": [name("v")], "max": [name("v")]}))
+	# an apply function that raises StopIteration for a group holding nothing but None (the exception must come out of the call, not end some internal loop quietly)
+	out.append(dict(base, table={"names": ["k", "s", "v"], "cols": [k, [1, None, 2, None, 3, 4], v]}, over=[name("k")], aggs={"sum": [name("v")]}, apply=[{"out": "first", "col": name("s"), "fn": "next-non-none"}]))
+	out.append(dict(base, table={"names": ["k", "s", "v"], "cols": [["a", "b", "a", "c", "a", "c"], [1, None, 2, 5, 3, 4], v]}, over=[name("k")], aggs={}, apply=[{"out": "n", "col": name("v"), "fn": "len"}, {"out": "first", "col": name("s"), "fn": "next-non-none"}, {"out": "m", "col": name("v"), "fn": "len"}]))
 	# an apply function that raises AttributeError for some group
 	out.append(dict(base, table={"names": ["k", "s", "v"], "cols": [k, ["x ", None, " y", "z", "q", None], v]}, over=[name("k")], aggs={"sum": [name("v")]}, apply=[{"out": "st", "col": name("s"), "fn": "strip-first"}]))
 	out.append(dict(base, table={"names": ["k", "s", "v"], "cols": [k, [None, " p", " y", "z", "q", "r"], v]}, over=[name("k")], aggs={}, apply=[{"out": "st", "col": name("s"), "fn": "strip-first"}, {"out": "n", "col": name("v"), "fn": "len"}]))
@@ -390,6 +393,69 @@ def run_nested_apply(chk, spec):
 				chk.fail("every output equals the function over THIS call's groups (an apply function may itself call aggregate / window on the table)", f"{op}/value/nested-apply/{inner}/{nm}",
 					f"{spec!r}: column {nm!r} row {r} (key {kk!r}) = {got[r]!r}, expected {want[kk]!r}; columns {short(dict(zip(names, cols)), 300)}")
 				return
+
+def run_same_function_twice(chk, spec):
+	"""ONE function object under two apply names (same column by name, by name and by handle, or two columns): every entry is a call of its own per group - the function is
+	called once per entry and group, and the cells the entries return are not one shared object"""
+	import warnings
+	op = spec["op"]
+	calls = []
+	def f(vals):
+		calls.append(tuple(vals))
+		return [len(calls), list(vals)] if spec["returns"] == "container" else len(calls)
+	with warnings.catch_warnings():
+		warnings.simplefilter("ignore")
+		t = Table({"k": ["a", "b", "a"], "v": [1, 2, 3], "w": [4, 5, 6]})
+		second = {"same-name": "v", "handle": t["v"], "other-column": "w"}[spec["second"]]
+		o = call(lambda: getattr(t, op)(over="k", apply={"p": ("v", f), "q": (second, f)}))
+	chk.judged("aggregate", ("same-function-twice", op, spec["second"], spec["returns"]))
+	if not o.ok:
+		chk.fail(f"{op} computes every admissible request", f"{op}/raises/same-function-twice/{type(o.exc).__name__}", f"{spec!r}: {o!r}")
+		return
+	if len(calls) != 4:
+		chk.fail("a custom apply function receives each group's values in row order exactly once", f"{op}/apply-call-count/same-function-under-two-names/{spec['second']}", f"{spec!r}: two apply entries over 2 groups: the function was called {len(calls)} times with {calls!r}")
+		return
+	names, cols = J.cells(o.value)
+	p_, q_ = cols[names.index("p")], cols[names.index("q")]
+	if spec["returns"] == "container" and any(a is b for a, b in zip(p_, q_)):
+		chk.fail("every output equals the function over the group's values", f"{op}/value/same-function-under-two-names/shared-result-objects", f"{spec!r}: columns p and q hold the very same result objects")
+	elif spec["returns"] != "container" and sorted(list(p_) + list(q_)) != ([1, 2, 3, 4] if op == "aggregate" else sorted([x for x in p_] + [x for x in q_])):
+		chk.fail("every output equals the function over the group's values", f"{op}/value/same-function-under-two-names", f"{spec!r}: p = {p_!r}, q = {q_!r}; the four calls returned 1, 2, 3, 4")
+
+
+def run_repeated_name_after_other_table(chk, spec):
+	"""a column asked for by a label the table carries TWICE is the first such column - whatever position that label had in another table an earlier call looked at"""
+	import warnings
+	op = spec["op"]
+	with warnings.catch_warnings():
+		warnings.simplefilter("ignore")
+		p = spec["position"]
+		names0 = ["k", "a", "b"]
+		names0[p] = "v"
+		other = Table([Vector(["x", "y", "x"], name=names0[0]), Vector([1, 2, 3], name=names0[1]), Vector([4, 5, 6], name=names0[2])])
+		for f in (lambda: other.aggregate(over="k", sum_over="v"), lambda: other.window(over="k", max_over="v"), lambda: other.sort_by("v")):
+			call(f)
+		names = ["k", "v", "z"]
+		cols = [["x", "y", "x"], [1, 2, 3], [10, 20, 30]]
+		names[p if p else 2] = "v"
+		if spec["role"] == "key":
+			names = ["v", "n", "m"]
+			cols = [["x", "y", "x"], [1, 2, 3], ["p", "p", "q"]]
+			names[p if p else 2] = "v"
+		T = Table([Vector(list(c), name=nm) for c, nm in zip(cols, names)])
+		o = call(lambda: getattr(T, op)(over="k", sum_over="v") if spec["role"] == "value" else getattr(T, op)(over="v", count_over="n"))
+	chk.judged("aggregate", ("repeated-name-after-other-table", op, p, spec["role"]))
+	if not o.ok:
+		chk.skip("repeated-name-request-refused")
+		return
+	got = list(o.value.cols()[-1]._underlying)
+	if spec["role"] == "value":
+		exp = [4, 2] if op == "aggregate" else [4, 2, 4]
+	else:
+		exp = [2, 1] if op == "aggregate" else [2, 1, 2]
+	if got != exp:
+		chk.fail("a repeated name resolves to its first occurrence", f"{op}/repeated-name-resolved-elsewhere-first/{spec['role']}", f"{spec!r}: table names {names!r}: result column {got!r}, expected {exp!r} (the FIRST column labelled 'v')")
+
 
 def run_key_forms_sequence(chk, spec):
 	"""the same partition asked for twice in different spellings on one long-lived table: first with the key given as a vector (an UNNAMED column of the table
@@ -478,7 +544,7 @@ def run_reduce_mutable_cells(chk, spec):
 		chk.fail("whole-column reductions agree with aggregating that column as a single group", f"vector-agree/differs/{spec['fn']}/mutable-cells", f"{spec!r}: vector {second.value!r}, aggregate {list(a.value.cols()[1]._underlying)[0]!r}")
 
 
-RUNNERS = {"key_forms_sequence": run_key_forms_sequence, "reduce_mutable_cells": run_reduce_mutable_cells, "nested_apply": run_nested_apply, "aggregate": run_aggregate, "vector_agree": run_vector_agree, "agg_chain": run_agg_chain, "label_keys": run_label_keys}
+RUNNERS = {"same_function_twice": run_same_function_twice, "repeated_name_after_other_table": run_repeated_name_after_other_table, "key_forms_sequence": run_key_forms_sequence, "reduce_mutable_cells": run_reduce_mutable_cells, "nested_apply": run_nested_apply, "aggregate": run_aggregate, "vector_agree": run_vector_agree, "agg_chain": run_agg_chain, "label_keys": run_label_keys}
 RUNNERS["recompute"] = recompute.runner("C12")
 
 
@@ -524,6 +590,12 @@ def chain_cases(chk, second_op):
 
 
 def key_form_cases(chk, op):
+	for second in ("same-name", "handle", "other-column"):
+		for returns in ("number", "container"):
+			chk.case("same_function_twice", {"op": op, "second": second, "returns": returns}, "same-function-twice")
+	for position in (1, 2):
+		for role in ("value", "key"):
+			chk.case("repeated_name_after_other_table", {"op": op, "position": position, "role": role}, "repeated-name-after-other-table")
 	chk.case("key_forms_sequence", {"op": op, "what": "unnamed-then-accessor"}, "key-forms")
 	chk.case("key_forms_sequence", {"op": op, "what": "uniform-key-then-written"}, "key-forms")
 	for spelling in ("accessor", "upper", "mixed", "exact", "three"):
